@@ -101,9 +101,12 @@ def operand(rng, depth=0):
         return ir.s(rng.choice(STRINGS))
     if c < 0.64:
         return ir.var(rng.choice(['null', 'true', 'false', 'undefinedVar']))
-    if c < 0.70:
+    if c < 0.67:
         return ir.call('datetimeNew', ir.num(rng.choice([2000, 9999, 100, 2024])), ir.num(rng.choice([1, 12, 2])),
                        ir.num(rng.choice([1, 28, 31])))
+    if c < 0.70:
+        # host-supplied datetimes: time-zone aware, naive, and a plain date
+        return ir.var(rng.choice(['gAware', 'gAwareUtc', 'gNaive', 'gDate']))
     if c < 0.75:
         return ir.call('arrayNew', *[operand(rng, 2) for _ in range(rng.randint(0, 2))]) if depth < 2 else ir.call('arrayNew')
     if c < 0.80:
@@ -145,6 +148,12 @@ def classic(rng):
         lambda: ir.binop('**', big, ir.num(rng.choice([0.5, 1.5]))), lambda: ir.binop('**', ir.num(1.5), big),
         lambda: ir.binop('%', ir.num(rng.choice([5, 5.5])), rng.choice([neg(0), ir.num(0)])),
         lambda: ir.unop('-', big), lambda: ir.binop('*', big, big),
+        # datetimes of different flavours meeting in comparison and difference operators
+        lambda: ir.binop(rng.choice(['==', '!=', '<', '<=', '>', '>=', '-']),
+                         ir.var(rng.choice(['gAware', 'gAwareUtc', 'gNaive', 'gDate'])),
+                         rng.choice([ir.var(rng.choice(['gAware', 'gAwareUtc', 'gNaive', 'gDate'])), dt])),
+        lambda: ir.binop(rng.choice(['==', '<', '-']), dt, ir.var(rng.choice(['gAware', 'gAwareUtc', 'gDate']))),
+        lambda: ir.call('arrayIndexOf', ir.call('arrayNew', ir.var('gNaive'), ir.var('gAware')), ir.var('gAwareUtc')),
     ]
     return rng.choice(table)()
 
@@ -462,6 +471,13 @@ def pathological_globals():
     return {'gDeep': deep, 'gDeepObj': deep_obj, 'gCyc': cyc}
 
 
+def datetime_globals():
+    import datetime
+    return {'gAware': datetime.datetime(2024, 3, 10, 1, 30, tzinfo=datetime.timezone(datetime.timedelta(hours=5, minutes=45))),
+            'gAwareUtc': datetime.datetime(2024, 3, 10, 1, 30, tzinfo=datetime.timezone.utc),
+            'gNaive': datetime.datetime(2024, 3, 10, 1, 30), 'gDate': datetime.date(2024, 3, 10)}
+
+
 def run_adversarial(plan, stats):
     import bare_script.library as lib
     viols = []
@@ -481,6 +497,7 @@ def run_adversarial(plan, stats):
             p['debug'] = debug
             # fresh host values for every run: library calls may mutate them (arrayPop(gCyc))
             p['host_globals'] = pathological_globals() if wants_pathological else {}
+            p['host_globals'].update(datetime_globals())
             if plan.get('entry') == 'expression':
                 out = run_expressions(p)
             else:
